@@ -15,7 +15,7 @@ CHECKS = {
     "C07": {
         "technique": "runtime monitoring: crash/step monitor (caught panic + site, worker death, parser input-operation budget from hook H2) around the real parse + lint on hostile inputs, plus an independent position oracle",
         "text": "About 1.5e5 (quick) / 2e6 (thorough) inputs - random bytes as UTF-8, token soups, byte/token mutations and every token prefix of all BASIC texts embedded in the repository, nesting stress to depth 200, semantic soups that reuse one name in many roles - are parsed and linted by the real code; any panic, process death, exceeded logical parser budget or error position outside the text is a violation.",
-        "note": "Nesting is driven to depth 20000 (the parser now has its own limits of 128 blocks / 400 expression levels). A hang inside the linter has no logical step counter and would be reported as inconclusive (wall-clock watchdog); stack depth is judged with the 8 MiB main-thread stack of the shipped binary; the worker receives text, so the file-reading entry point of the binary is not exercised.",
+        "note": "Nesting is driven to depth 20000 (the parser now has its own limits of 128 blocks / 400 expression levels). CONST chains whose folded value grows geometrically are generated and the worker runs under a 2 GiB address-space limit, so a text that makes the checker allocate without bound is an observed crash. A hang inside the linter has no logical step counter and would be reported as inconclusive (wall-clock watchdog); stack depth is judged with the 8 MiB main-thread stack of the shipped binary; the worker receives text, so the file-reading entry point of the binary is not exercised.",
         "design": "DESIGN.md section 2 C07",
     },
     "C08": {
@@ -53,13 +53,13 @@ CHECKS["C03"] = {
 CHECKS["C05"] = {
     "technique": "runtime monitoring: generated jump/handler programs in which every statement prints a unique trace token are run by the real code; the printed control-flow history, ERR values, variable values after RESUME and the final outcome are judged by the reference control semantics; context invariants walked at every statement boundary",
     "text": "Label/jump layouts in the main module: GOSUB nesting incl. RETURN label and RETURN without GOSUB, backward GOTOs, GOTO out of 1-3 nested FOR/WHILE/DO loops with distinct bounds and steps (landing inside an enclosing loop or outside), failing statements of every kind at first/middle/last position of FOR, WHILE, IF, ELSEIF and CASE blocks, inside GOSUB subroutines, inside a called SUB and inside a FUNCTION called in an expression, under every handler form (RESUME, RESUME NEXT, RESUME label, ON ERROR RESUME NEXT, ON ERROR GOTO 0, none) enabled and disabled in every order.",
-    "note": "Also generated: an ELSEIF condition, a non-first CASE expression or the NEXT increment failing, repaired by the handler and re-executed by RESUME; GOSUB/RETURN inside SUBs (RETURN without a GOSUB of its own, EXIT SUB with a GOSUB pending); RESUME label into a FOR body or SELECT CASE block. Not generated because the property does not define them: RESUME NEXT after a failing block header, an error raised by the handler itself, a handler left by GOTO, RESUME label after an error inside a procedure.",
+    "note": "Also generated: an ELSEIF condition, a non-first CASE expression or the NEXT increment failing, repaired by the handler and re-executed by RESUME; GOSUB/RETURN inside SUBs (RETURN without a GOSUB of its own, EXIT SUB with a GOSUB pending); RESUME label into a FOR body or SELECT CASE block. Also: RESUME / RESUME NEXT from inside the handler's own FOR and SELECT CASE blocks, handlers that fail (fatal), RETURN label across block depths. Not generated because the property does not define them or because of an open finding: RESUME NEXT after a failing block header, a handler left by GOTO, GOTO out of a GOSUB routine (KF-C15-2), RESUME label after an error inside a procedure.",
     "design": "DESIGN.md section 2 C05",
 }
 CHECKS["C06"] = {
     "technique": "runtime monitoring: slot-invariant hook that walks every live memory block at every statement boundary (variant tag vs declared type, value range), plus reference prediction of stored value or Overflow for every generated statement; repeated on the plain release build",
     "text": "Exhaustive over the boundary set of each numeric type x each target type x every route into a variable (assignment, by-value and by-ref parameter, SHARED variable in a SUB, FOR initial value/limit/increment, READ, INPUT from console and file, function result, array element, record field, CONST with suffix) and every arithmetic operator on all boundary pairs; random in-range values. The monitor observed every scalar slot (variables, array elements, record fields, parameters, counters) at every statement boundary of every run.",
-    "note": "Rounding ties and values not exactly representable in their type are discarded; the numeric workload is also run on the plain release profile (overflow checks off) because the verdict can flip between profiles.",
+    "note": "Also: exact quotients close to whole numbers, literals of 39-400 digits (must never be stored). Rounding ties and values not exactly representable in their type are discarded; the numeric workload is also run on the plain release profile (overflow checks off) because the verdict can flip between profiles.",
     "design": "DESIGN.md section 2 C06",
 }
 CHECKS["C09"] = {
